@@ -49,6 +49,10 @@ func genC14(seed uint64, tier string) *plan.Plan {
 		pl.Cfg["check_ms"] = []int64{10, 100, 1000, 10000}[r.IntN(4)]
 		R = time.Duration(pl.Cfg["check_ms"]) * time.Millisecond
 	}
+	if r.IntN(10) == 0 {
+		genC14JSON(r, pl)
+		return pl
+	}
 	now := time.Duration(0)
 	advTo := func(t time.Duration) {
 		if t > now {
@@ -181,6 +185,10 @@ func genC14Race(seed uint64, tier string) *plan.Plan {
 }
 
 func runC14(pl *plan.Plan, out *plan.Outcome) {
+	if cfgOr(pl, "json", 0) == 1 {
+		runC14JSON(pl, out)
+		return
+	}
 	env := newEnv(pl, out, keepLogFlag)
 	udp := cfgOr(pl, "proto", 0) == 1
 	var appOps, closers []plan.Op
